@@ -4,9 +4,24 @@ import json, os
 V = os.path.dirname(os.path.dirname(os.path.abspath(__file__)))
 TECH = 'bounded symbolic execution of the real code (CBMC 6.11 + SAT) over symbolic inputs; counterexamples replayed natively'
 CHECKS = {
- 'C02': dict(design='5.2', engine='A+B',
-   text='Bounded model checking of the real parsers: for each parser entry point and each exact buffer length N in the stated set, CBMC proves that no input of that length makes the code read/write outside the buffer, fail an unwinding bound linear in N, or reach an abort. Solver-decided for all 2^(8N) inputs per job; nothing is sampled.',
-   note='Bounded: lengths in the job table only. Trusted: CBMC 6.11 C semantics, clang-14 -O1 lowering + ir2c translation (validated per run by a native differential), allocator never fails, printf/logging are no-ops. Out-of-bounds pointer formation without dereference is not decided.'),
+ 'C02': dict(design='5.2', engine='A',
+   text='Bounded model checking of the real C parsers. MicroMessage.c: for every public read accessor and every exact buffer length N in the job table CBMC proves that NO N-byte input makes the code read/write outside the buffer, abort, or exceed a loop bound linear in N (solver-decided over all 2^(8N) inputs). MiniMessage.c (a heap-building parser that cannot be executed with symbolic sizes): for each message shape, every truncation length, trailing garbage, and every framing word set to each small value and to the boundary constants of the property, with all payload bytes symbolic: memory safety, termination, O(N) allocation budget, object reusable and destructible afterwards.',
+   note='Bounded: lengths/shapes of the job table only. The C++ parsers (Message.cpp, DataUnflattener.h, gateways\' input paths) are NOT covered at this commit. Trusted: CBMC 6.11 C semantics, allocator never fails, printf is a no-op. Forming/comparing out-of-bounds pointers without dereferencing is not decided.'),
+ 'C03': dict(design='5.3', engine='A',
+   text='Inductive step over I/O calls, decided by CBMC on the real MiniMessageGateway.c: from ANY receiver state Recv(p) / sender state Send(q) (cursor anywhere in the frame), one MGDoInput/MGDoOutput call with any maxBytes and any short-read/short-write counts re-establishes the invariant, delivers exactly the frame body exactly when its last byte arrives, and reports exactly the bytes moved. Base case (fresh gateway = Recv(0)/Send(0)) included; the composition into whole streams is the written induction argument of DESIGN 5.3.',
+   note='Only the C mini gateway at this commit (micro gateway and C++ MessageIOGateway not built). Frames with body <= 6 (quick) / <= 24 (thorough) bytes. The Message codec behind the gateway is cut to a model that checks it is handed exactly the body bytes. zlib/templating/WebSocket/text gateways are outside.'),
+ 'C08': dict(design='5.5', engine='A',
+   text='For each message shape with SYMBOLIC item values, CBMC proves that MicroMessage.c (UMAdd*) and MiniMessage.c (MMPut*+MMFlattenMessage) produce exactly the bytes of an independent reference encoder written from the documented layout (lib/wire.py), and that both parsers read exactly the values back from the reference bytes (MiniMessage additionally re-flattens to identical bytes). Agreement between implementations follows by transitivity through the reference.',
+   note='C implementations only at this commit: the C++ Message class and the 8-byte stream frame are NOT yet compared with the reference; Python is not executable symbolically here. MiniMessage multi-field/nested shapes only in the thorough tier (measured > 120 s). Shapes: lib/wire.py std_shapes.'),
+ 'C10': dict(design='5.6', engine='B',
+   text='Sequential histories on the real Ref/ConstRef/RefCountable code (clang IR -> ir2c -> CBMC): for every sequence of 3 (quick) / 4 (thorough) operation kinds on three Refs and two objects, with the operands of every operation symbolic, after every step: destructor ran exactly once iff the last Ref is gone and never before, reference count = number of designating Refs.',
+   note='The schedule quantifier of C10 (interleavings of atomic operations) and ObjectPool are NOT covered: only single-threaded histories. Built with -DMUSCLE_AVOID_TAGGED_POINTERS (CBMC cannot satisfy the alignment assertion of tagged pointers); translation validated per run by native differential execution.'),
+ 'C16': dict(design='5.11', engine='B',
+   text='Inductive step on the real Queue.h (clang IR -> ir2c -> CBMC): from an ARBITRARY ring state satisfying the representation invariant (capacity and count per job; head offset, every slot incl. stale ones, and arguments symbolic) each public operation returns what an ideal sequence would, leaves the ideal content, and re-establishes the invariant; hence sequences of any length within the capacity bound. int32 items everywhere, an owning item type on the slot-vacating operations.',
+   note='Capacities 3..6 (quick) / 3..9 (thorough). Arguments that size an allocation (EnsureSize request, start/count of multi-adds, insert index when full) are enumerated constants incl. 2^31 and 2^32-1, all others symbolic. Sorting/searching operations only up to 3 (quick) / 5 items. Translation validated per run by native differential execution.'),
+ 'C20': dict(design='5.13', engine='B',
+   text='The whole of PulseNode.cpp executed symbolically on small trees: with every requested time and every instant symbolic, CBMC proves the reported wake-up time is the minimum over attached nodes, each node fires exactly once iff due and never early with its own scheduled time, stale nodes are re-asked exactly once (fired / invalidated / re-attached), detached nodes are never asked, plus the structural invariant of the three child lists.',
+   note='At the edge of reach (6.8 M SAT variables for root+2 leaves, recalc+pulse): quick = all scenarios on root+1 leaf and recalc+pulse on root+2 leaves; thorough adds 3-4 node trees with 24 GB / 50 min per job. Times range over {0..7, never}. Translation validated per run by native differential execution.'),
 }
 NA_DESIGN = 'not encodable for solver-based checking of the real code (DESIGN.md section 6): '
 NA = {
@@ -20,7 +35,7 @@ NA = {
  'C19': NA_DESIGN + 'pending/deferred Hashtables of message queues per client, real Thread objects and condition variables',
 }
 PENDING = {  # claimed by DESIGN.md but whose check is not built yet at this commit: listed as not claimed until it exists
- 'C01': '5.1', 'C03': '5.3', 'C08': '5.5', 'C09': '5.9', 'C10': '5.6', 'C12': '5.7', 'C14': '5.8', 'C15': '5.10', 'C16': '5.11', 'C17': '5.12', 'C20': '5.13',
+ 'C01': '5.1', 'C09': '5.9', 'C12': '5.7', 'C14': '5.8', 'C15': '5.10', 'C17': '5.12',
 }
 def main():
     m = {'version': 1,
